@@ -18,7 +18,7 @@ type engine struct {
 
 func (*engine) ID() string { return "C15" }
 func (*engine) CoqHeader() string {
-	return "From Eino Require Import Base.Util Base.FMUniverse Model.FieldMap Corr.C15.\n" +
+	return "From Eino Require Import Base.Util Base.FMUniverse Model.FieldMap Model.FieldMapPromote Corr.C15.\n" +
 		"(* struct environment generated from the harness's Go declarations by reflection *)\n" +
 		"Definition genv : senv := " + coqEnv() + ".\n" +
 		"(* promoted fields of embedded structs, by reflection *)\n" +
@@ -59,7 +59,7 @@ func (*engine) Decode(raw json.RawMessage) (any, error) {
 // data edges without direct dependency
 func (e *engine) Generate(r *lib.Rng, tier string, i int) any {
 	if (e.fam == nil || e.fam.pos >= len(e.fam.perms)) && r.Chance(1, 8) {
-		g := &gen{r: r, depth: 3}
+		g := &gen{r: r, depth: 3, promo: r.Chance(1, 4)}
 		if c := g.unitCase(); c != nil {
 			return c
 		}
@@ -81,7 +81,7 @@ func (e *engine) generate(r *lib.Rng, tier string, i int) any {
 		return e.fam.next()
 	}
 	e.fam = nil
-	g := &gen{r: r, depth: 3}
+	g := &gen{r: r, depth: 3, promo: r.Chance(1, 4)}
 	maxDecls, maxMaps, famN := 3, 5, 2
 	if tier == "thorough" {
 		g.depth, maxDecls, famN = 4, 4, 3
@@ -317,6 +317,23 @@ func (e *engine) Run(ci any) lib.Result {
 	}
 	if !conflict && o.Compile == "overlap" {
 		fail("overlap-spurious", fmt.Sprintf("target paths %v do not overlap but Compile said: %s", tps, o.CompMsg))
+	}
+	// the static part of Compile against the reference rules, declaration by declaration (Compile stops at
+	// the first declaration it rejects, for an overlap or for a static reason: only a set without either can
+	// be compared as a whole)
+	if !conflict {
+		anyReject := false
+		for i := range c.Decls {
+			if refStaticReject(c.T, &c.Decls[i]) {
+				anyReject = true
+			}
+		}
+		if anyReject && o.Compile == "accept" {
+			fail("static-accepted", fmt.Sprintf("Compile accepted mappings that cannot be walked / assigned statically: %v into %s", c.Decls, c.T))
+		}
+		if !anyReject && o.Compile == "static" && staticsValid(c.T, c.Statics) {
+			fail("static-spurious", "Compile rejected mappings that are statically fine: "+o.CompMsg)
+		}
 	}
 	if len(o.SrcMod) > 0 {
 		fail("source-modified", "a predecessor's output was modified: "+strings.Join(o.SrcMod, "; "))
